@@ -196,9 +196,13 @@ type reCell struct {
 	Event   string // socket event, "srv.<event>" or "callback"
 	Action  string // Send | Close(false) | Close(true)
 	Carrier string
+	Once    bool // the listener is registered with Once instead of On
 }
 
 func (c reCell) String() string {
+	if c.Once {
+		return fmt.Sprintf("%s once-listener -> %s on %s", c.Event, c.Action, c.Carrier)
+	}
 	return fmt.Sprintf("%s listener -> %s on %s", c.Event, c.Action, c.Carrier)
 }
 
@@ -209,16 +213,18 @@ func reCells() []reCell {
 	var out []reCell
 	for _, car := range []string{"polling", "websocket", "webtransport"} {
 		for _, act := range []string{"Send", "Close(false)", "Close(true)"} {
-			for _, ev := range reSocketEvents {
-				out = append(out, reCell{ev, act, car})
-			}
-			for _, ev := range reServerEvents {
-				if (ev == "srv.initial_headers" || ev == "srv.headers") && car != "polling" {
-					continue
+			for _, once := range []bool{false, true} {
+				for _, ev := range reSocketEvents {
+					out = append(out, reCell{ev, act, car, once})
 				}
-				out = append(out, reCell{ev, act, car})
+				for _, ev := range reServerEvents {
+					if (ev == "srv.initial_headers" || ev == "srv.headers") && car != "polling" {
+						continue
+					}
+					out = append(out, reCell{ev, act, car, once})
+				}
 			}
-			out = append(out, reCell{"callback", act, car})
+			out = append(out, reCell{"callback", act, car, false})
 		}
 	}
 	return out
@@ -251,7 +257,21 @@ func runReCell(c reCell) (fired bool, fail string) {
 	var theSock engine.Socket
 	if strings.HasPrefix(c.Event, "srv.") {
 		name := strings.TrimPrefix(c.Event, "srv.")
-		w.Srv.On(types.EventName(name), func(a ...any) {
+		reg := w.Srv.On
+		if c.Once {
+			// a one-time listener that does not get to act yet (the session does not exist) is spent: register
+			// it anew each time until it has acted
+			reg = w.Srv.Once
+		}
+		var lst types.Listener
+		lst = func(a ...any) {
+			if c.Once && !did {
+				defer func() {
+					if !did {
+						w.Srv.Once(types.EventName(name), lst)
+					}
+				}()
+			}
 			switch name {
 			case "connection":
 				act(a[0].(engine.Socket))
@@ -264,12 +284,17 @@ func runReCell(c reCell) (fired bool, fail string) {
 					act(theSock)
 				}
 			}
-		})
+		}
+		reg(types.EventName(name), lst)
 	}
 	w.OnConn = func(sr *SessRec) {
 		theSock = sr.Sock
 		if !strings.HasPrefix(c.Event, "srv.") && c.Event != "callback" {
-			sr.Sock.On(types.EventName(c.Event), func(...any) { act(sr.Sock) })
+			if c.Once {
+				sr.Sock.Once(types.EventName(c.Event), func(...any) { act(sr.Sock) })
+			} else {
+				sr.Sock.On(types.EventName(c.Event), func(...any) { act(sr.Sock) })
+			}
 		}
 	}
 	s, why := doHandshake(w, c06HS{Carrier: c.Carrier, EIO: "4"})
@@ -349,7 +374,7 @@ func mutexBlocked() map[string]string {
 
 func TestC18Reentrancy(t *testing.T) {
 	col := NewCollector("TestC18Reentrancy",
-		"exhaustive matrix: {socket events packet, packetCreate, data, message, heartbeat, flush, drain, close, upgrading, upgrade; server events connection, flush, drain, initial_headers, headers; send callback} x {Send, Close(false), Close(true)} x {polling, websocket, webtransport}: a listener of the event performs the call the first time it fires, inside a scenario that makes the event fire; oracle: the scenario runs to quiescence and the session still round-trips a message (or is properly closed). A cell that does not finish is examined from outside the bubble: goroutines of the library blocked on a mutex in two stack dumps one second apart prove a deadlock. every cell is non-trivial").Use(t)
+		"exhaustive matrix: {listener registered with On, with Once} x {socket events packet, packetCreate, data, message, heartbeat, flush, drain, close, upgrading, upgrade; server events connection, flush, drain, initial_headers, headers; send callback} x {Send, Close(false), Close(true)} x {polling, websocket, webtransport}: a listener of the event performs the call the first time it fires, inside a scenario that makes the event fire; oracle: the scenario runs to quiescence and the session still round-trips a message (or is properly closed). A cell that does not finish is examined from outside the bubble: goroutines of the library blocked on a mutex in two stack dumps one second apart prove a deadlock. every cell is non-trivial").Use(t)
 	known := isKnown("C18", sigFlushReentrancy)
 	var wedged []string
 	for _, c := range reCells() {
@@ -418,16 +443,27 @@ func TestC18Reentrancy(t *testing.T) {
 	col.SetExhaustive(true)
 	if len(wedged) > 0 {
 		detail := fmt.Sprintf("%d cells wedge, first: %s", len(wedged), clipStr(wedged[0], 2500))
-		onlyFlush := true
+		// each wedged cell belongs to one recorded signature, or is a violation of its own
+		bySig := map[string][]string{}
+		var other []string
 		for _, m := range wedged {
-			if !strings.Contains(m, "flush listener -> Send") && !strings.Contains(m, "drain listener -> Send") {
-				onlyFlush = false
+			switch {
+			case strings.Contains(m, "flush listener -> Send") || strings.Contains(m, "drain listener -> Send"):
+				bySig[sigFlushReentrancy] = append(bySig[sigFlushReentrancy], m)
+			case strings.Contains(m, "packetCreate once-listener -> Send"):
+				bySig[sigOnceListenerSend] = append(bySig[sigOnceListenerSend], m)
+			default:
+				other = append(other, m)
 			}
 		}
-		if onlyFlush {
-			demoFinding(t, col, "C18", sigFlushReentrancy, true, detail)
-		} else {
-			t.Errorf("%s", detail)
+		for sig, ms := range bySig {
+			demoFinding(t, col, "C18", sig, true, fmt.Sprintf("%d cells wedge, first: %s", len(ms), clipStr(ms[0], 2500)))
 		}
+		if len(other) > 0 {
+			t.Errorf("%d cells wedge, first: %s", len(other), clipStr(other[0], 2500))
+		}
+		_ = detail
 	}
 }
+
+const sigOnceListenerSend = "once-listener-of-packetCreate-calling-send-deadlocks"
